@@ -355,7 +355,13 @@ func runKA(t *testing.T, ci interface{}, trace bool) *common.Outcome {
 	if len(res.Panics) > 0 {
 		o.Fail("escaped-panic", "keepalive", "%s", res.Panics[0])
 	}
-	if res.BudgetHit && o.V == nil {
+	if res.BudgetHit {
+		// (the run was cut off: what the unwinding goroutines report while the world is torn
+		// down is no verdict)
+		if o.V != nil {
+			o.Probe("report_during_teardown_discarded")
+			o.V = nil
+		}
 		o.Probe("inconclusive_step_budget_exhausted")
 		o.NonTrivial = false
 	}
